@@ -257,6 +257,8 @@ def exit_job(job):
                 probs.append("panic-text")
                 d["tail"] = tail
         res["outcome"] = "%s/%s->%s" % (exit_how, running, code)
+        # one class per session: report the temp-file problem (a known finding in one shape) only when it is the only one
+        probs.sort(key=lambda p: p == "temp-files-left")
         if probs:
             cls = "exit:" + probs[0].split(":")[0]
             if probs[0] == "temp-files-left" and running in ("preview", "reload") and not (child == "quick" and instant == "late"):
